@@ -11,7 +11,7 @@ from .envctl import MachineryError
 CHECKS = {
     'C03': ('harness.checks.seq', 'C03'), 'C04': ('harness.checks.seq', 'C04'),
     'C09': ('harness.checks.seq', 'C09'), 'C10': ('harness.checks.seq', 'C10'),
-    'C05': ('harness.checks.conc', 'C05'), 'C06': ('harness.checks.conc', 'C06'), 'C08': ('harness.checks.conc', 'C08'), 'C07': ('harness.checks.kill', 'C07'), 'C14': ('harness.checks.conc', 'C14'), 'C11': ('harness.checks.deque', 'C11'), 'C12': ('harness.checks.index', 'C12'), 'C13': ('harness.checks.fanout', 'C13'), 'C19': ('harness.checks.django', 'C19'), 'C15': ('harness.checks.locks', 'C15'), 'C20': ('harness.checks.recipes', 'C20'), 'C16': ('harness.checks.memo', 'C16'), 'C17': ('harness.checks.checkfix', 'C17'), 'C01': ('harness.checks.codec', 'C01'), 'C02': ('harness.checks.keys', 'C02'),
+    'C05': ('harness.checks.conc', 'C05'), 'C06': ('harness.checks.conc', 'C06'), 'C08': ('harness.checks.conc', 'C08'), 'C07': ('harness.checks.kill', 'C07'), 'C14': ('harness.checks.conc', 'C14'), 'C11': ('harness.checks.deque', 'C11'), 'C12': ('harness.checks.index', 'C12'), 'C13': ('harness.checks.fanout', 'C13'), 'C19': ('harness.checks.django', 'C19'), 'C15': ('harness.checks.locks', 'C15'), 'C20': ('harness.checks.recipes', 'C20'), 'C16': ('harness.checks.memo', 'C16'), 'C17': ('harness.checks.checkfix', 'C17'), 'C01': ('harness.checks.codec', 'C01'), 'C02': ('harness.checks.keys', 'C02'), 'C18': ('harness.checks.persist', 'C18'),
 }
 
 
